@@ -147,6 +147,8 @@ Lemma suspend_waitclk_ctl : forall cfg pid c ph s, same_ctl s (suspend_waitclk c
 Proof. intros. unfold suspend_waitclk, fresh_id. destruct (eff_clk cfg c); repeat split. Qed.
 Lemma suspend_waitchange_ctl : forall pid m s, same_ctl s (suspend_waitchange pid m s).
 Proof. intros. unfold suspend_waitchange, fresh_id. repeat split. Qed.
+Lemma suspend_waitx_ctl : forall cfg pid i ph s, same_ctl s (suspend_waitx cfg pid i ph s).
+Proof. intros. unfold suspend_waitx, fresh_id. repeat split. Qed.
 Lemma suspend_waitstable_ctl : forall pid s, same_ctl s (suspend_waitstable pid s).
 Proof. repeat split. Qed.
 
@@ -178,6 +180,7 @@ Proof.
       * apply K. eapply same_ctl_trans; [exact C0 | apply log_proc_ctl].
       * eapply same_ctl_trans; [exact C0|]. eapply same_ctl_trans; [apply log_proc_ctl | apply upd_proc_ctl].
       * apply K. eapply same_ctl_trans; [exact C0 | apply log_proc_ctl].
+    + eapply same_ctl_trans; [exact C0|]. eapply same_ctl_trans; [apply log_proc_ctl | apply suspend_waitx_ctl].
   - apply fiber_continue_ctl.
 Qed.
 
@@ -253,7 +256,11 @@ Inductive frame_step (cfg : config) : frame -> state -> state -> Prop :=
 | FS_wstable : forall pid s rest,
     frame_step cfg (FRun pid) s
       (let s0 := upd_proc pid (with_script rest) s in
-       suspend_waitstable pid (log_proc pid (ASusp WkStable 0) s0)).
+       suspend_waitstable pid (log_proc pid (ASusp WkStable 0) s0))
+| FS_wx : forall pid s i ph rest,
+    frame_step cfg (FRun pid) s
+      (let s0 := upd_proc pid (with_script rest) s in
+       suspend_waitx cfg pid i ph (log_proc pid (ASusp (WkX i ph) (s_nextid s0)) s0)).
 
 Lemma fiber_continue_cont : forall pid s, cont_states pid s (snd (fiber_continue pid s)).
 Proof.
@@ -288,6 +295,7 @@ Proof.
       * eapply FS_join_nowait; [right; reflexivity | apply K].
       * apply FS_join_wait.
       * eapply FS_join_nowait; [left; reflexivity | apply K].
+    + apply FS_wx.
   - apply FS_after. apply fiber_continue_cont.
 Qed.
 
@@ -312,6 +320,8 @@ Lemma same_lg_refl : forall s, same_lg s s. Proof. repeat split. Qed.
 Lemma same_lg_trans : forall a b c, same_lg a b -> same_lg b c -> same_lg a c.
 Proof. unfold same_lg. intros a b c (A1 & A2 & A3) (B1 & B2 & B3). repeat split; congruence. Qed.
 
+Lemma suspend_waitx_lg : forall cfg pid i ph s, same_lg s (suspend_waitx cfg pid i ph s).
+Proof. intros. unfold suspend_waitx, fresh_id. repeat split. Qed.
 Lemma suspend_waitfor_lg : forall pid q s, same_lg s (suspend_waitfor pid q s).
 Proof. intros. unfold suspend_waitfor, fresh_id. repeat split. Qed.
 Lemma suspend_waitclk_lg : forall cfg pid c ph s, same_lg s (suspend_waitclk cfg pid c ph s).
@@ -407,6 +417,8 @@ Proof.
     intro Ro. apply Ha. congruence.
   - right. eapply one_entry_case with (s0 := upd_proc pid (with_script rest) s) (a := ASusp WkStable 0);
       [repeat split | repeat split | | exact H | intros; discriminate]. repeat split.
+  - right. eapply one_entry_case with (s0 := upd_proc pid (with_script rest) s);
+      [repeat split | repeat split | apply suspend_waitx_lg | exact H | intros; discriminate].
 Qed.
 
 Lemma proc_entry_ctl : forall s s1 e, same_ctl s s1 -> proc_entry s1 e -> proc_entry s e.
